@@ -81,7 +81,12 @@ def run(mod, tier, seed, replay=None):
     hist = collections.Counter()
     distinct = set()
     samples = []
+    skipped_after_timeouts = 0
     for line, io, mo in zip(cases, impl, model):
+        if io == "TIMEOUT-SKIP":
+            # the harness stopped running scheduler cases after repeated hangs (already reported)
+            skipped_after_timeouts += 1
+            continue
         for k in mod.features(line, io):
             hist[k] += 1
         if mod.nontrivial(line, io):
@@ -217,7 +222,7 @@ def run(mod, tier, seed, replay=None):
         "traces_validated_against_impl": sum(1 for l, i, m in zip(cases, impl, model) if i is not None and agree(l, i, m)),
         "disagreements": len(disagreements), "property_predicate_failures": len(pviol),
         "impl_missing_outputs": sum(1 for i in impl if i is None),
-        "transient_not_reproduced": transient,
+        "transient_not_reproduced": transient, "not_judged_after_repeated_hangs": skipped_after_timeouts,
     }
     if hasattr(mod, "second_pass"):
         cov["outcome_predicate_evaluations"] = outcome_checked
